@@ -112,6 +112,13 @@ class Interp:
             p = os.path.join(self.root_dir, rel)
             if kind == 'd':
                 os.makedirs(p, exist_ok=True)
+            elif kind.startswith('h:'):
+                # a second name (hard link) of a regular file of the tree
+                os.makedirs(os.path.dirname(p), exist_ok=True)
+                src = os.path.join(self.root_dir, kind[2:])
+                if os.path.isfile(src) and not os.path.exists(p):
+                    os.link(src, p)
+                    self.probes['hard_link'] += 1
             elif kind in ('l', 'p'):
                 # neither a file nor a directory: a dangling symbolic link,
                 # a named pipe
@@ -189,7 +196,7 @@ class Interp:
         for i, r in enumerate(self.cfg['rules']):
             factory = self.make_factory(i)
             try:
-                self.pop.add_rule(r['path'], factory, *r.get('args', []),
+                self.pop.add_rule(self.rpath(r), factory, *r.get('args', []),
                                   file_exts=r.get('exts', []),
                                   **r.get('kwargs', {}))
             except Exception as e:
@@ -199,6 +206,11 @@ class Interp:
                     f'arguments {r.get("args")} {r.get("kwargs")} of a rule: '
                     f'{type(e).__name__}: {e}')
                 break
+
+    def rpath(self, r):
+        """'<ROOT>' stands for the root directory's own name (a rule path
+        that leaves the root and comes back: '../<root>/sub')."""
+        return r['path'].replace('<ROOT>', os.path.basename(self.root_dir))
 
     def make_factory(self, i):
         it = self
@@ -295,7 +307,7 @@ class Interp:
         # which rule (if any) must be rejected
         bad = None
         for i, r in enumerate(self.cfg['rules']):
-            full = os.path.join(self.root_dir, r['path'])
+            full = os.path.join(self.root_dir, self.rpath(r))
             if os.path.exists(full) and not os.path.isdir(full):
                 bad = i
                 break
@@ -358,7 +370,7 @@ class Interp:
         li = 0
         for i in rules:
             r = self.cfg['rules'][i]
-            full = os.path.join(self.root_dir, r['path'])
+            full = os.path.join(self.root_dir, self.rpath(r))
             if not os.path.isdir(full):
                 continue
             listing = self.listings[li] if li < len(self.listings) else None
@@ -584,6 +596,10 @@ def gen_tree(rng):
         kind = 'd' if is_dir else 'f'
         if not is_dir and rng.random() < .06:
             kind = rng.choice(['l', 'p'])
+        elif not is_dir and rng.random() < .06:
+            regular = [e[0] for e in entries if e[1] == 'f']
+            if regular:
+                kind = 'h:' + rng.choice(regular)
         sib.add((name, kind))
         entries.append([rel, kind])
         if is_dir:
@@ -615,7 +631,8 @@ def generate(prop, run_seed, tier='quick', tolerate=frozenset()):
         # other spellings of the same directory
         if path in dirs and crng.random() < .25:
             path = crng.choice([path + '/', './' + path,
-                                path + '/../' + path.split('/')[-1]])
+                                path + '/../' + path.split('/')[-1],
+                                '../<ROOT>/' + path])
         args = crng.choice([[], [], [1], ['x', 2]])
         kwargs = crng.choice([{}, {}, {'k': 1}, {'mode': 'r', 'n': 0}])
         if crng.random() < .04:
